@@ -84,6 +84,9 @@ func main() {
 		c.LoadSecs = loadSecs
 		func() {
 			defer func() {
+				if os.Getenv("WRV_NORECOVER") != "" {
+					return
+				}
 				if r := recover(); r != nil {
 					// a panic of the checker is not silence: fail closed
 					ru := c.Rule("checker", "the checker must complete", 0)
